@@ -38,6 +38,9 @@ type command struct {
 	id  string
 	rpc *goatorepo.Rpc
 	err error
+
+	// client is the connection reporting err
+	client *proxyClient
 }
 
 type proxyClient struct {
@@ -112,7 +115,11 @@ func (p *Proxy) serveClients(ctx context.Context) {
 				p.forwardRpc(cmd.id, cmd.rpc)
 			} else if cmd.err != nil {
 				p.mutex.Lock()
-				delete(p.clients, cmd.id)
+				// Forget the connection that failed - not a newer connection that
+				// has meanwhile been attached under the same name.
+				if cmd.client == nil || p.clients[cmd.id] == cmd.client {
+					delete(p.clients, cmd.id)
+				}
 				p.mutex.Unlock()
 				if p.clientDisconnect != nil {
 					p.clientDisconnect(cmd.id, cmd.err)
@@ -184,7 +191,7 @@ func (c *proxyClient) readLoop(ctx context.Context) error {
 	for {
 		rpc, err := c.conn.Read(ctx)
 		if err != nil {
-			c.toServer <- command{id: c.id, err: err}
+			c.toServer <- command{id: c.id, err: err, client: c}
 			return errors.Wrap(err, "failed to read from connection")
 		}
 
@@ -203,7 +210,7 @@ func (c *proxyClient) writeLoop(ctx context.Context) error {
 
 			err := c.conn.Write(ctx, rpc)
 			if err != nil {
-				c.toServer <- command{id: c.id, err: err}
+				c.toServer <- command{id: c.id, err: err, client: c}
 				return errors.Wrap(err, "failed to write to connection")
 			}
 		case <-ctx.Done():
@@ -224,7 +231,7 @@ func (c *proxyClient) connect(ctx context.Context, newConnection NewConnection) 
 
 	c.conn, err = newConnection(c.id)
 	if err != nil {
-		c.toServer <- command{id: c.id, err: err}
+		c.toServer <- command{id: c.id, err: err, client: c}
 		return
 	}
 
